@@ -21,7 +21,8 @@
 (* The module is a decision table (one row = current keyspace x statement) run    *)
 (* through a small model of one client connection: the keyspace is established    *)
 (* with USE, the statement is sent as QUERY, or as PREPARE followed by EXECUTE,   *)
-(* or as PREPARE, a USE of a keyspace of the opposite kind, and EXECUTE.  Every   *)
+(* or as PREPARE, a USE of a keyspace of the opposite kind, and EXECUTE; or as    *)
+(* QUERY after a second USE (successful or failed) - see Vias.  Every             *)
 (* complete behaviour is exported as one JSON line and replayed into the real     *)
 (* code (parser.IsQueryHandled for every statement step; the in-process proxy     *)
 (* for the whole behaviour).                                                      *)
@@ -30,8 +31,8 @@ EXTENDS Naturals, Sequences, FiniteSets, TLC, Json
 CONSTANT Deep      \* FALSE: the enumeration of DESIGN 6/C09; TRUE: plus further spellings
 
 VARIABLES row,     \* [cur, st]: current keyspace as the client spells it ("" = none), statement
-          via,     \* "query" | "prepare" | "prepare_switch"
-          pc,      \* "setks" | "stmt" | "switch" | "exec" | "done"
+          via,     \* one of Vias
+          pc,      \* "setks" | "switch" | "faileduse" | "stmt" | "exec" | "done"
           ks,      \* keyspace of the connection, as spelled in the last USE ("" = none)
           prep,    \* disposition of the PREPARE of this behaviour: "none" | "local" | "forward"
           hist     \* steps so far, each with the expected disposition
@@ -94,7 +95,8 @@ SelectShapes == {
     Shape("distinct",    "SELECT", "SELECT DISTINCT key FROM ", ""),
     Shape("func",        "SELECT", "SELECT now() FROM ", ""),
     Shape("writetime",   "SELECT", "SELECT key, writetime(rack) FROM ", " WHERE key = 'local'"),
-    Shape("quoted_from_column", "SELECT", "SELECT " \o Quote("from") \o ", key FROM ", "") }
+    Shape("quoted_from_column", "SELECT", "SELECT " \o Quote("from") \o ", key FROM ", ""),
+    Shape("from_prefixed_names", "SELECT", "SELECT key AS from_key, fromage FROM ", "") }
 CoreSelectShapes == {s \in SelectShapes : s.name \in {"star", "where_limit_filtering", "alias"}}
 OtherShapes == {
     Shape("insert",   "INSERT",   "INSERT INTO ", " (key, v) VALUES ('local', 1)"),
@@ -120,10 +122,22 @@ StmtsDeep == {Stmt(sh, q, t) : sh \in CoreSelectShapes \cup CoreOtherShapes,
 CurKs == IF Deep THEN CurKsBase \cup CurKsDeep ELSE CurKsBase
 Stmts == IF Deep THEN StmtsBase \cup StmtsDeep ELSE StmtsBase
 Rows  == {[cur |-> c, st |-> s] : c \in CurKs, s \in Stmts}
-Vias  == {"query", "prepare", "prepare_switch"}
+\* how the statement is submitted:
+\*   query            USE cur; QUERY st
+\*   prepare          USE cur; PREPARE st; EXECUTE
+\*   prepare_switch   USE cur; PREPARE st; USE other; EXECUTE      (other: keyspace of the opposite kind)
+\*   switch_query     USE cur; USE other; QUERY st                 (the last USE counts)
+\*   faileduse_query  USE cur; USE <unknown keyspace>; QUERY st    (a failed USE changes nothing)
+Vias  == {"query", "prepare", "prepare_switch", "switch_query", "faileduse_query"}
+NoSuchKs == "nosuch"   \* a keyspace the backend does not have
 
 Ref(st)  == IF st.qual = "" THEN st.table ELSE st.qual \o "." \o st.table
 Text(st) == st.pre \o Ref(st) \o st.post
+
+\* Fold of every identifier spelling of the table, computed once (TLC caches constant definitions)
+Idents  == CurKsBase \cup CurKsDeep \cup QualBase \cup QualDeep \cup TableBase \cup TableDeep \cup UseTargets
+FoldTab == [s \in Idents |-> Fold(s)]
+F(s)    == FoldTab[s]
 
 -----------------------------------------------------------------------------
 (* THE ORACLE.  `cur` is the keyspace of the connection when the statement is     *)
@@ -132,20 +146,20 @@ Resolved(cur, st) == IF st.qual # "" THEN st.qual ELSE cur
 Handled(cur, st) ==
     \/ st.kind = "USE"
     \/ /\ st.kind = "SELECT"
-       /\ Fold(Resolved(cur, st)) = "system"
-       /\ Fold(st.table) \in SystemTables
+       /\ F(Resolved(cur, st)) = "system"
+       /\ F(st.table) \in SystemTables
 Disp(cur, st) == IF Handled(cur, st) THEN "local" ELSE "forward"
 
 \* abstract classes (used for evidence counts and for stable finding keys)
-KsClass(k)   == IF k = "" THEN "none" ELSE IF Fold(k) = "system" THEN "system" ELSE "user"
-QualClass(q) == IF q = "" THEN "absent" ELSE IF Fold(q) = "system" THEN "system" ELSE "user"
+KsClass(k)   == IF k = "" THEN "none" ELSE IF F(k) = "system" THEN "system" ELSE "user"
+QualClass(q) == IF q = "" THEN "absent" ELSE IF F(q) = "system" THEN "system" ELSE "user"
 TableClass(st) == IF st.kind = "USE" THEN "na"
-                  ELSE IF Fold(st.table) \in SystemTables THEN "systable"
+                  ELSE IF F(st.table) \in SystemTables THEN "systable"
                   ELSE IF st.table \in LookAlikeBase \cup LookAlikeDeep THEN "lookalike"
                   ELSE "user"
 
 \* a keyspace of the opposite kind, for the switch between PREPARE and EXECUTE
-Other(cur) == IF Fold(cur) = "system" THEN "ks1" ELSE "system"
+Other(cur) == IF F(cur) = "system" THEN "ks1" ELSE "system"
 
 Entry(op, role, st, cur, disp) ==
     [op |-> op, role |-> role, kind |-> st.kind, shape |-> st.name, pre |-> st.pre, qual |-> st.qual,
@@ -160,31 +174,39 @@ Init == /\ row \in Rows /\ via \in Vias
 
 \* the client establishes the row's current keyspace (a USE is answered by the proxy)
 SetKs ==
-    /\ pc = "setks" /\ pc' = "stmt"
+    /\ pc = "setks"
+    /\ pc' = (IF via = "switch_query" THEN "switch" ELSE IF via = "faileduse_query" THEN "faileduse" ELSE "stmt")
     /\ IF row.cur = "" THEN UNCHANGED <<ks, hist>>
        ELSE /\ ks' = row.cur
             /\ hist' = Append(hist, Entry("QUERY", "setks", UseStmt(row.cur), ks, "local"))
     /\ UNCHANGED <<row, via, prep>>
 
 Query ==
-    /\ pc = "stmt" /\ via = "query" /\ pc' = "done"
+    /\ pc = "stmt" /\ via \in {"query", "switch_query", "faileduse_query"} /\ pc' = "done"
     /\ hist' = Append(hist, Entry("QUERY", "stmt", row.st, ks, Disp(ks, row.st)))
     /\ ks' = KsAfter(ks, row.st)
     /\ UNCHANGED <<row, via, prep>>
 
 \* preparing never changes the connection's keyspace (not even PREPARE of a USE)
 Prepare ==
-    /\ pc = "stmt" /\ via # "query"
+    /\ pc = "stmt" /\ via \in {"prepare", "prepare_switch"}
     /\ pc' = (IF via = "prepare_switch" THEN "switch" ELSE "exec")
     /\ prep' = Disp(ks, row.st)
     /\ hist' = Append(hist, Entry("PREPARE", "stmt", row.st, ks, Disp(ks, row.st)))
     /\ UNCHANGED <<row, via, ks>>
 
 Switch ==
-    /\ pc = "switch" /\ pc' = "exec"
+    /\ pc = "switch" /\ pc' = (IF via = "prepare_switch" THEN "exec" ELSE "stmt")
     /\ ks' = Other(ks)
     /\ hist' = Append(hist, Entry("QUERY", "switch", UseStmt(Other(ks)), ks, "local"))
     /\ UNCHANGED <<row, via, prep>>
+
+\* a USE of a keyspace that does not exist is answered (with an error) by the proxy and leaves
+\* the connection's keyspace as it was
+FailedUse ==
+    /\ pc = "faileduse" /\ pc' = "stmt"
+    /\ hist' = Append(hist, Entry("QUERY", "faileduse", UseStmt(NoSuchKs), ks, "local"))
+    /\ UNCHANGED <<row, via, ks, prep>>
 
 \* EXECUTE of the id returned by this connection's PREPARE: answered where the PREPARE was
 \* answered - the id of a locally answered PREPARE is unknown to the backend, the id of a
@@ -197,7 +219,7 @@ Execute ==
 
 Done == pc = "done" /\ UNCHANGED vars
 
-Next == SetKs \/ Query \/ Prepare \/ Switch \/ Execute \/ Done
+Next == SetKs \/ Query \/ Prepare \/ Switch \/ FailedUse \/ Execute \/ Done
 Spec == Init /\ [][Next]_vars
 
 -----------------------------------------------------------------------------
@@ -207,7 +229,7 @@ Spec == Init /\ [][Next]_vars
 Steps == {hist[i] : i \in DOMAIN hist}
 StmtSteps == {e \in Steps : e.op \in {"QUERY", "PREPARE"}}
 
-TypeOK == /\ pc \in {"setks", "stmt", "switch", "exec", "done"}
+TypeOK == /\ pc \in {"setks", "stmt", "switch", "faileduse", "exec", "done"}
           /\ prep \in {"none", "local", "forward"}
           /\ \A e \in Steps : e.disp \in {"local", "forward"}
 
@@ -215,14 +237,14 @@ TypeOK == /\ pc \in {"setks", "stmt", "switch", "exec", "done"}
 \* never forwarded, however it is spelled and whichever way the keyspace is given
 NeverForwardSystemLocalOrPeers ==
     \A e \in StmtSteps :
-        (e.kind = "SELECT" /\ Fold(e.table) \in TopologyTables
-         /\ ((e.qual # "" /\ Fold(e.qual) = "system") \/ (e.qual = "" /\ Fold(e.ks) = "system")))
+        (e.kind = "SELECT" /\ F(e.table) \in TopologyTables
+         /\ ((e.qual # "" /\ F(e.qual) = "system") \/ (e.qual = "" /\ F(e.ks) = "system")))
             => e.disp = "local"
 
 \* anything in a user keyspace is forwarded, even for a table named local or peers
 UserKeyspaceForwarded ==
     \A e \in StmtSteps :
-        (e.kind # "USE" /\ ((e.qual # "" /\ Fold(e.qual) # "system") \/ (e.qual = "" /\ Fold(e.ks) # "system")))
+        (e.kind # "USE" /\ ((e.qual # "" /\ F(e.qual) # "system") \/ (e.qual = "" /\ F(e.ks) # "system")))
             => e.disp = "forward"
 
 \* only USE and SELECT are ever answered locally; USE always is
@@ -234,15 +256,26 @@ OnlyUseAndSelectLocal ==
 LookAlikeForwarded ==
     \A e \in StmtSteps : (e.kind # "USE" /\ e.tc # "systable") => e.disp = "forward"
 
+\* The next three are properties of the table as a whole, evaluated once.  The verdict of a
+\* statement depends on its kind only through Kinds, so one shape per kind suffices.
+Kinds == {sh.kind : sh \in SelectShapes \cup OtherShapes}
+Quals == IF Deep THEN QualBase \cup QualDeep ELSE QualBase
+Tables == IF Deep THEN TableBase \cup TableDeep ELSE TableBase
+KStmt(k, q, t) == [kind |-> k, name |-> "any", pre |-> "", qual |-> q, table |-> t, post |-> ""]
+
 \* an explicit qualifier takes precedence: the connection's keyspace is irrelevant
-QualifierWins ==
-    row.st.qual # "" => \A c \in CurKs : Handled(c, row.st) = Handled(row.cur, row.st)
+ASSUME QualifierWins ==
+    \A k \in Kinds, q \in Quals \ {""}, t \in Tables, c1 \in CurKs, c2 \in CurKs :
+        Handled(c1, KStmt(k, q, t)) = Handled(c2, KStmt(k, q, t))
 
 \* the verdict depends only on what the identifiers denote, not on how they are spelled
-SpellingIrrelevant ==
-    \A s \in {x \in Stmts : x.kind = row.st.kind /\ x.name = row.st.name} :
-        (Fold(Resolved(row.cur, s)) = Fold(Resolved(row.cur, row.st)) /\ Fold(s.table) = Fold(row.st.table))
-            => Handled(row.cur, s) = Handled(row.cur, row.st)
+ASSUME KeyspaceSpellingIrrelevant ==
+    \A k \in Kinds, t \in Tables, c1 \in CurKs, c2 \in CurKs, q1 \in Quals, q2 \in Quals :
+        F(Resolved(c1, KStmt(k, q1, t))) = F(Resolved(c2, KStmt(k, q2, t)))
+            => Handled(c1, KStmt(k, q1, t)) = Handled(c2, KStmt(k, q2, t))
+ASSUME TableSpellingIrrelevant ==
+    \A k \in Kinds, c \in CurKs, q \in Quals, t1 \in Tables, t2 \in Tables :
+        F(t1) = F(t2) => Handled(c, KStmt(k, q, t1)) = Handled(c, KStmt(k, q, t2))
 
 \* EXECUTE goes where its PREPARE went
 ExecuteFollowsPrepare ==
@@ -251,7 +284,7 @@ ExecuteFollowsPrepare ==
 
 \* the connection's keyspace is the one of the last USE that was executed
 KeyspaceTracksUse ==
-    pc \in {"stmt"} => ks = row.cur
+    pc = "stmt" => ks = (IF via = "switch_query" THEN Other(row.cur) ELSE row.cur)
 
 \* every class of interest occurs in the table (vacuity guard, evaluated once)
 ASSUME \A cc \in {"none", "system", "user"}, qc \in {"absent", "system", "user"}, tc \in {"systable", "lookalike", "user"} :
